@@ -104,5 +104,20 @@ def ipswRow (gen stab : Bool) (iv : Option (F × F)) (numer denom : F) : F × F 
   let n' := if stab = true then applyB iv numer else numer
   (d', n', Gen.ipsw_weight gen stab n' d')
 
+/-- AIPTW / TMLE `missing_model`: the two predicted observation probabilities (under A=1 and A=0) are separate
+    predictions, each clipped with the same bound -/
+def missPair (iv : Option (F × F)) (m1 m0 : F) : F × F := (applyB iv m1, applyB iv m0)
+
+/-- TMLE / StochasticTMLE `outcome_model`: the predictions are always clipped — by the user's `bound` when one is given,
+    otherwise by the interval `cb` of the continuous bound (`self._cb`) -/
+def qBound (iv : Option (F × F)) (cb : F × F) (x : F) : F :=
+  match iv with
+  | none => clip1 cb.1 cb.2 x
+  | some (lo, hi) => clip1 lo hi x
+
+/-- TMLE.outcome_model: (QA1W, QA0W, QAW) of a row with exposure `a`; QAW is assembled from the *clipped* predictions -/
+def qTriple (iv : Option (F × F)) (cb : F × F) (a q1 q0 : F) : F × F × F :=
+  (qBound iv cb q1, qBound iv cb q0, qBound iv cb q1 * a + qBound iv cb q0 * (((1 : Nat) : F) - a))
+
 end
 end ZV.Bounds
